@@ -57,7 +57,7 @@ structure Inv (s : State) : Prop where
   pendListed : ∀ p ∈ s.creating, p.inserted = true → ∃ E ∈ s.envs, E.id = p.id ∧ E.tasks = [] ∧ E.hooks = [] ∧ E.tearing = false
   pendClaims : ∀ p ∈ s.creating, p.claims = none
 
-theorem inv_init (reuse : Bool) (hosts : List Host) : Inv (init reuse hosts) := by
+theorem inv_init (reuse : Bool) (hosts : List Host) (c : Cfg := codeCfg) : Inv (init reuse hosts c) := by
   constructor <;> simp [init]
 
 end Own
@@ -331,9 +331,17 @@ namespace Own
 theorem tdPlain_sub (E : Env) : ∀ x ∈ tdPlain E, x ∈ E.tasks := by
   intro x hx; exact (List.mem_filter.mp hx).1
 
+theorem effHooks_sub (hs : List HookRef) : ∀ x ∈ effHooks hs, ∃ h ∈ hs, h.task = x := by
+  intro x hx
+  obtain ⟨w, _, hw⟩ := List.mem_flatMap.mp hx
+  exact hooksAt_sub hs w x hw
+
 theorem tdMsg_sub (s1 : State) (E : Env) (hh : ∀ h ∈ E.hooks, h.task ∈ E.tasks) : ∀ x ∈ tdMsg s1 E, x ∈ E.tasks := by
   intro x hx
   unfold tdMsg at hx
+  split at hx
+  · obtain ⟨h, hh', rfl⟩ := effHooks_sub E.hooks x hx
+    exact hh h hh'
   split at hx
   · exact tdPlain_sub E x hx
   · unfold tdRun at hx
@@ -500,7 +508,7 @@ theorem inv_teardown (s : State) (k : EnvId) (force late : Bool) (hf : List Task
       intro t ht hx
       left; rw [← hEk]; exact h.owned E hEm (by simpa using hte) t ht (tdPlain_sub E _ hx)
     simp only [herr, Nat.lt_irrefl, if_false]
-    exact inv_tdFinish s _ k E late hf h hEm hEk (by simpa using hte) hp (tdPlain E) (tdPlain_sub E)
+    exact inv_tdFinish s _ k E _ hf h hEm hEk (by simpa using hte) hp (tdPlain E) (tdPlain_sub E)
       (releaseTasks_roster s k _) rfl rfl rfl rfl
 
 
@@ -1156,9 +1164,10 @@ theorem lostAll_cons (s : State) (l : Host × Bool) (ls : List (Host × Bool)) :
 /-- Lost executors / agents touch roster, master and the set of hosts only. -/
 theorem lostAll_frame (s : State) (ls : List (Host × Bool)) :
     (lostAll s ls).envs = s.envs ∧ (lostAll s ls).creating = s.creating ∧ (lostAll s ls).killLog = s.killLog ∧
-    (lostAll s ls).reuse = s.reuse ∧ (lostAll s ls).crashed = s.crashed ∧ (lostAll s ls).dead = s.dead := by
+    (lostAll s ls).reuse = s.reuse ∧ (lostAll s ls).crashed = s.crashed ∧ (lostAll s ls).dead = s.dead ∧
+    (lostAll s ls).cfg = s.cfg := by
   induction ls generalizing s with
-  | nil => exact ⟨rfl, rfl, rfl, rfl, rfl, rfl⟩
+  | nil => exact ⟨rfl, rfl, rfl, rfl, rfl, rfl, rfl⟩
   | cons l rest ih =>
     rw [lostAll_cons]
     obtain ⟨a, b, c, d, e, f⟩ := ih (hostLost s l.1 l.2)
@@ -1914,18 +1923,19 @@ theorem eq_of_nodup_map {α β} (f : α → β) (l : List α) (h : (l.map f).Nod
     · subst hb1; exact absurd (show f b ∈ rest.map f from List.mem_map.mpr ⟨a, ha1, hab⟩) h.1
     · exact ih h.2 ha1 hb1
 
-/-- `reuse` never changes and `crashed` only in the one branch of createSettle. -/
-def RC (s s' : State) : Prop := s'.reuse = s.reuse ∧ s'.crashed = s.crashed
+/-- `reuse` and the configuration never change, and `crashed` only in the one branch of createSettle. -/
+def RC (s s' : State) : Prop := s'.reuse = s.reuse ∧ s'.crashed = s.crashed ∧ s'.cfg = s.cfg
 
-theorem RC.refl (s : State) : RC s s := ⟨rfl, rfl⟩
-theorem RC.trans {a b c : State} (h1 : RC a b) (h2 : RC b c) : RC a c := ⟨h2.1.trans h1.1, h2.2.trans h1.2⟩
+theorem RC.refl (s : State) : RC s s := ⟨rfl, rfl, rfl⟩
+theorem RC.trans {a b c : State} (h1 : RC a b) (h2 : RC b c) : RC a c :=
+  ⟨h2.1.trans h1.1, h2.2.1.trans h1.2.1, h2.2.2.trans h1.2.2⟩
 
 theorem rc_tdFinish (s1 : State) (k : EnvId) (E : Env) (late : Bool) (hf : List TaskId) : RC s1 (tdFinish s1 k E late hf).1 := by
   unfold tdFinish
   simp only []
   split
-  · exact ⟨rfl, rfl⟩
-  · split <;> exact ⟨rfl, rfl⟩
+  · exact ⟨rfl, rfl, rfl⟩
+  · split <;> exact ⟨rfl, rfl, rfl⟩
 
 theorem rc_teardown (s : State) (k : EnvId) (force late : Bool) (hf : List TaskId) : RC s (teardown s k force late hf).1 := by
   unfold teardown
@@ -1940,11 +1950,11 @@ theorem rc_teardown (s : State) (k : EnvId) (force late : Bool) (hf : List TaskI
     · exact RC.refl s
     simp only []
     split
-    · exact ⟨rfl, rfl⟩
-    · exact (show RC s (releaseTasks s k (tdPlain E)).1 from ⟨rfl, rfl⟩).trans (rc_tdFinish _ _ _ _ _)
+    · exact ⟨rfl, rfl, rfl⟩
+    · exact (show RC s (releaseTasks s k (tdPlain E)).1 from ⟨rfl, rfl, rfl⟩).trans (rc_tdFinish _ _ _ _ _)
 
 theorem rc_cleanupTasks (s : State) (ids : List TaskId) : RC s (cleanupTasks s ids) := by
-  unfold cleanupTasks; split <;> exact ⟨rfl, rfl⟩
+  unfold cleanupTasks; split <;> exact ⟨rfl, rfl, rfl⟩
 
 theorem rc_tcFin (keep : Bool) (ids : List TaskId) (s' : State) (res : TRes) (tr : List TEv) : RC s' (tcFin keep ids s' res tr).1 := by
   unfold tcFin
@@ -1965,7 +1975,7 @@ theorem rc_teardownAndCleanup (s : State) (k : EnvId) (ids : List TaskId) (force
 theorem rc_destroyStop (s : State) (k : EnvId) (E : Env) (allow : Bool) (fails : List (TaskId × Bool)) :
     RC s (destroyStop s k E allow fails).1 := by
   unfold destroyStop; split
-  · split <;> exact ⟨rfl, rfl⟩
+  · split <;> exact ⟨rfl, rfl, rfl⟩
   · exact RC.refl s
 
 theorem rc_destroyRest (s1 : State) (st : EState) (stopOk : Bool) (k : EnvId) (E : Env) (keep : Bool) (o : DOracle) :
@@ -1977,8 +1987,8 @@ theorem rc_destroyRest (s1 : State) (st : EState) (stopOk : Bool) (k : EnvId) (E
   · exact rc_teardownAndCleanup _ _ _ _ _ _
   split
   · split
-    · exact (show RC s1 _ from ⟨rfl, rfl⟩).trans (rc_teardownAndCleanup _ _ _ _ _ _)
-    · exact (show RC s1 _ from ⟨rfl, rfl⟩).trans (rc_teardownAndCleanup _ _ _ _ _ _)
+    · exact (show RC s1 _ from ⟨rfl, rfl, rfl⟩).trans (rc_teardownAndCleanup _ _ _ _ _ _)
+    · exact (show RC s1 _ from ⟨rfl, rfl, rfl⟩).trans (rc_teardownAndCleanup _ _ _ _ _ _)
   · exact rc_teardownAndCleanup _ _ _ _ _ _
 
 theorem rc_destroy (s : State) (k : EnvId) (force allow keep : Bool) (o : DOracle) : RC s (destroy s k force allow keep o).1 := by
@@ -2007,25 +2017,25 @@ theorem rc_control (s : State) (k : EnvId) (ev : CEv) (fails : List (TaskId × B
     · split
       · split
         · exact RC.refl s
-        · exact ⟨rfl, rfl⟩
+        · exact ⟨rfl, rfl, rfl⟩
       · split
-        · exact ⟨rfl, rfl⟩
+        · exact ⟨rfl, rfl, rfl⟩
         · have h0 : RC s (restartCalls s k E ev) := by
             unfold restartCalls
-            split <;> exact ⟨rfl, rfl⟩
+            split <;> exact ⟨rfl, rfl, rfl⟩
           generalize restartCalls s k E ev = s0 at h0 ⊢
           simp only []
-          split <;> exact h0.trans ⟨rfl, rfl⟩
+          split <;> exact h0.trans ⟨rfl, rfl, rfl⟩
 
 theorem rc_createFail (s : State) (k : EnvId) (ids : List TaskId) (late : Bool) (res : Res) (hf : List TaskId) :
     RC s (createFail s k ids late res hf).1 := by
   unfold createFail
   simp only []
   have h1 : RC s (teardown (setEnv s k (fun X => { X with state := .ERROR })) k true late hf).1 :=
-    (show RC s (setEnv s k (fun X => { X with state := .ERROR })) from ⟨rfl, rfl⟩).trans (rc_teardown _ _ _ _ _)
+    (show RC s (setEnv s k (fun X => { X with state := .ERROR })) from ⟨rfl, rfl, rfl⟩).trans (rc_teardown _ _ _ _ _)
   split
   · exact h1
-  · exact h1.trans ⟨rfl, rfl⟩
+  · exact h1.trans ⟨rfl, rfl, rfl⟩
 
 theorem rc_createConfigure (s : State) (k : EnvId) (spec : EnvSpec) (a : Acq) (o : SettleOracle) :
     RC s (createConfigure s k spec a o).1 := by
@@ -2033,45 +2043,82 @@ theorem rc_createConfigure (s : State) (k : EnvId) (spec : EnvSpec) (a : Acq) (o
   split
   · exact RC.refl s
   · simp only []
-    have h3 : ∀ s0 : State, s0.reuse = s.reuse → s0.crashed = s.crashed → RC s (lostAll s0 o.lost) := fun s0 a b =>
-      ⟨(lostAll_frame s0 o.lost).2.2.2.1.trans a, (lostAll_frame s0 o.lost).2.2.2.2.1.trans b⟩
-    have key : ∀ (s0 : State), s0.reuse = s.reuse → s0.crashed = s.crashed →
+    have h3 : ∀ s0 : State, s0.reuse = s.reuse → s0.crashed = s.crashed → s0.cfg = s.cfg → RC s (lostAll s0 o.lost) := fun s0 a b c =>
+      ⟨(lostAll_frame s0 o.lost).2.2.2.1.trans a, (lostAll_frame s0 o.lost).2.2.2.2.1.trans b,
+        (lostAll_frame s0 o.lost).2.2.2.2.2.2.trans c⟩
+    have key : ∀ (s0 : State), s0.reuse = s.reuse → s0.crashed = s.crashed → s0.cfg = s.cfg →
         (∀ f, RC s (setEnv (lostAll s0 o.lost) k f)) ∧
-        (∀ ids late res hf, RC s (createFail (lostAll s0 o.lost) k ids late res hf).1) := fun s0 a b =>
-      ⟨fun f => (h3 s0 a b).trans ⟨rfl, rfl⟩, fun ids late res hf => (h3 s0 a b).trans (rc_createFail _ _ _ _ _ _)⟩
+        (∀ ids late res hf, RC s (createFail (lostAll s0 o.lost) k ids late res hf).1) := fun s0 a b c =>
+      ⟨fun f => (h3 s0 a b c).trans ⟨rfl, rfl, rfl⟩, fun ids late res hf => (h3 s0 a b c).trans (rc_createFail _ _ _ _ _ _)⟩
     split
-    · exact (key _ (by rfl) (by rfl)).1 _
-    · exact (key _ (by rfl) (by rfl)).2 _ _ _ _
+    · exact (key _ (by rfl) (by rfl) (by rfl)).1 _
+    · exact (key _ (by rfl) (by rfl) (by rfl)).2 _ _ _ _
+
+/-- A settling creation does not end the process unless the state has reuseUnlockedTasks AND runs
+    the legacy acquireTasks (Unlock outside the block that locks). -/
+theorem rc_createSettle (s : State) (k : EnvId) (o : SettleOracle)
+    (h : s.reuse = false ∨ s.cfg.unlockUnpaired = false) : RC s (createSettle s k o).1 := by
+  unfold createSettle
+  split
+  · exact RC.refl s
+  · rename_i p _
+    simp only []
+    have hd : RC s (dropPending s k) := ⟨rfl, rfl, rfl⟩
+    split
+    · exact hd.trans (rc_createFail _ _ _ _ _ _)
+    · generalize claimsOf (dropPending s k) p = claims
+      have : ((dropPending s k).reuse && (dropPending s k).cfg.unlockUnpaired) = false := by
+        show (s.reuse && s.cfg.unlockUnpaired) = false
+        rcases h with h | h <;> simp [h]
+      simp only [this, Bool.false_and, Bool.false_eq_true, if_false]
+      have ha : RC s (acquire (dropPending s k) k p.spec claims o).s := hd.trans ⟨rfl, rfl, rfl⟩
+      split
+      · exact ha.trans (rc_createFail _ _ _ _ _ _)
+      · exact ha.trans (rc_createConfigure _ _ _ _ _)
 
 /-- Without reuseUnlockedTasks a settling creation does not end the process. -/
 theorem crash_free_settle (s : State) (k : EnvId) (o : SettleOracle) (hr : s.reuse = false) (hc : s.crashed = false) :
-    (createSettle s k o).1.reuse = false ∧ (createSettle s k o).1.crashed = false := by
-  have fin : ∀ s' : State, RC s s' → s'.reuse = false ∧ s'.crashed = false := fun s' h => ⟨h.1.trans hr, h.2.trans hc⟩
-  unfold createSettle
-  split
-  · exact ⟨hr, hc⟩
-  · rename_i p _
-    simp only []
-    have hd : RC s (dropPending s k) := ⟨rfl, rfl⟩
-    split
-    · exact fin _ (hd.trans (rc_createFail _ _ _ _ _ _))
-    · generalize claimsOf (dropPending s k) p = claims
-      have : (dropPending s k).reuse = false := hr
-      simp only [this, Bool.false_and, Bool.false_eq_true, if_false]
-      have ha : RC s (acquire (dropPending s k) k p.spec claims o).s := hd.trans ⟨rfl, rfl⟩
-      split
-      · exact fin _ (ha.trans (rc_createFail _ _ _ _ _ _))
-      · exact fin _ (ha.trans (rc_createConfigure _ _ _ _ _))
+    (createSettle s k o).1.reuse = false ∧ (createSettle s k o).1.crashed = false :=
+  ⟨(rc_createSettle s k o (Or.inl hr)).1.trans hr, (rc_createSettle s k o (Or.inl hr)).2.1.trans hc⟩
 
 theorem crash_free_control (s : State) (k : EnvId) (ev : CEv) (fails : List (TaskId × Bool)) (pre : Bool)
     (hr : s.reuse = false) (hc : s.crashed = false) :
     (control s k ev fails pre).1.reuse = false ∧ (control s k ev fails pre).1.crashed = false :=
-  ⟨(rc_control s k ev fails pre).1.trans hr, (rc_control s k ev fails pre).2.trans hc⟩
+  ⟨(rc_control s k ev fails pre).1.trans hr, (rc_control s k ev fails pre).2.1.trans hc⟩
 
 theorem crash_free_destroy (s : State) (k : EnvId) (f a kp : Bool) (o : DOracle)
     (hr : s.reuse = false) (hc : s.crashed = false) :
     (destroy s k f a kp o).1.reuse = false ∧ (destroy s k f a kp o).1.crashed = false :=
-  ⟨(rc_destroy s k f a kp o).1.trans hr, (rc_destroy s k f a kp o).2.trans hc⟩
+  ⟨(rc_destroy s k f a kp o).1.trans hr, (rc_destroy s k f a kp o).2.1.trans hc⟩
+
+/-- One step keeps `reuse`, the configuration and — unless the state has reuseUnlockedTasks and runs
+    the legacy acquireTasks — `crashed`. -/
+theorem rc_step (s : State) (st : Step) (h : s.reuse = false ∨ s.cfg.unlockUnpaired = false) : RC s (step s st).1 := by
+  unfold step
+  split
+  · exact RC.refl s
+  cases st with
+  | createBegin k spec => simp only [createBegin]; split; exact RC.refl s; split <;> exact ⟨rfl, rfl, rfl⟩
+  | createCleanup k => simp only [createCleanup]; split <;> exact ⟨rfl, rfl, rfl⟩
+  | createInsert k =>
+    simp only [createInsert]; split; exact RC.refl s; split; exact ⟨rfl, rfl, rfl⟩; split <;> exact ⟨rfl, rfl, rfl⟩
+  | createClaim k => simp only [createClaim]; split <;> exact ⟨rfl, rfl, rfl⟩
+  | createSettle k o => exact rc_createSettle s k o h
+  | control k ev fails pre => exact rc_control s k ev fails pre
+  | destroy k f a kp o => exact rc_destroy s k f a kp o
+  | cleanup => exact ⟨rfl, rfl, rfl⟩
+  | killIds ids => exact rc_cleanupTasks s ids
+  | mesosStart k => exact ⟨rfl, rfl, rfl⟩
+  | execLost h => exact ⟨rfl, rfl, rfl⟩
+  | agentLost h => exact ⟨rfl, rfl, rfl⟩
+  | watchError k fails => simp only [watchError]; split; exact RC.refl s; split <;> exact ⟨rfl, rfl, rfl⟩
+
+theorem rc_run (steps : List Step) (s : State) (h : s.reuse = false ∨ s.cfg.unlockUnpaired = false) : RC s (run s steps) := by
+  induction steps generalizing s with
+  | nil => exact RC.refl s
+  | cons st rest ih =>
+    have h1 := rc_step s st h
+    exact h1.trans (ih _ (by rw [h1.1, h1.2.2]; exact h))
 
 end Own
 
@@ -2295,28 +2342,32 @@ theorem singleWeight_cases (hs : List HookRef) (h : singleWeight hs = true) :
   | [w] => right; exact ⟨w, rfl⟩
   | a :: b :: rest => rw [hw] at h; simp at h
 
-/-- Under the two hypotheses the two ReleaseTasks messages of a teardown release exactly
-    the environment's tasks. -/
+/-- The two ReleaseTasks messages of a teardown release exactly the environment's tasks: always in
+    the code as it is (the second message names the hook tasks of all weights), under
+    `hooksReleasable` in the legacy configuration (`hooksOk`). -/
 theorem release_all (s : State) (k : EnvId) (E : Env) (hwf : envWf s k E.tasks = true)
-    (hrel : hooksReleasable s E.hooks = true) (hhk : ∀ h ∈ E.hooks, h.task ∈ E.tasks)
-    (s1 : State) (hs1 : s1.roster = s.roster.map (relMap k (tdPlain E))) :
+    (hrel : hooksOk s E.hooks = true) (hhk : ∀ h ∈ E.hooks, h.task ∈ E.tasks)
+    (s1 : State) (hs1 : s1.roster = s.roster.map (relMap k (tdPlain E))) (hc1 : s1.cfg = s.cfg) :
     ∀ t ∈ s.roster, relMap k (tdMsg s1 E) (relMap k (tdPlain E) t) = relAll E.tasks t := by
   simp only [envWf, Bool.and_eq_true, List.all_eq_true, Bool.or_eq_true, decide_eq_true_eq] at hwf
   obtain ⟨⟨⟨⟨⟨_, hP2⟩, _⟩, _⟩, _⟩, _⟩ := hwf
-  simp only [hooksReleasable, Bool.and_eq_true, List.all_eq_true] at hrel
-  obtain ⟨hsw, hact⟩ := hrel
   have hmsgsub := tdMsg_sub s1 E hhk
   -- hook tasks are all in the second message
   have hmsg : ∀ x ∈ effHooks E.hooks, x ∈ tdMsg s1 E := by
     intro x hx
-    rcases singleWeight_cases _ hsw with h0 | ⟨w, hw⟩
-    · simp [effHooks, h0] at hx
-    · simp only [effHooks, hw, List.flatMap_cons, List.flatMap_nil, List.append_nil] at hx
-      simp only [tdMsg, hw, List.getLast?_singleton, tdRun]
-      refine List.mem_filter.mpr ⟨hx, ?_⟩
-      rw [roleActive_map s _ (relMap_active k (tdPlain E)) s1 hs1]
-      apply hact
-      simp only [effHooks, hw, List.flatMap_cons, List.flatMap_nil, List.append_nil]; exact hx
+    cases hlw : s.cfg.lastWeightOnly with
+    | false => simp only [tdMsg, hc1, hlw, Bool.not_false, if_true]; exact hx
+    | true =>
+      simp only [hooksOk, hlw, Bool.not_true, Bool.false_or, hooksReleasable, Bool.and_eq_true, List.all_eq_true] at hrel
+      obtain ⟨hsw, hact⟩ := hrel
+      rcases singleWeight_cases _ hsw with h0 | ⟨w, hw⟩
+      · simp [effHooks, h0] at hx
+      · simp only [effHooks, hw, List.flatMap_cons, List.flatMap_nil, List.append_nil] at hx
+        simp only [tdMsg, hc1, hlw, Bool.not_true, Bool.false_eq_true, if_false, hw, List.getLast?_singleton, tdRun]
+        refine List.mem_filter.mpr ⟨hx, ?_⟩
+        rw [roleActive_map s _ (relMap_active k (tdPlain E)) s1 hs1]
+        apply hact
+        simp only [effHooks, hw, List.flatMap_cons, List.flatMap_nil, List.append_nil]; exact hx
   intro t ht
   by_cases hin : t.id ∈ E.tasks
   · have hpar : t.parent = some k := by
@@ -2355,12 +2406,13 @@ structure SameOwn (s s1 : State) : Prop where
   master : s1.master = s.master
   dead : s1.dead = s.dead
   killLog : s1.killLog = s.killLog
+  cfg : s1.cfg = s.cfg
   envs : ∃ f : Env → Env, (∀ E, (f E).id = E.id ∧ (f E).tasks = E.tasks ∧ (f E).hooks = E.hooks ∧ (f E).tearing = E.tearing ∧
       (f E).dets = E.dets ∧ (f E).started = E.started ∧ (f E).cancelled = E.cancelled ∧ (f E).pending = E.pending) ∧
     s1.envs = s.envs.map f
 
 theorem SameOwn.refl (s : State) : SameOwn s s :=
-  ⟨⟨id, fun _ => ⟨rfl, rfl, rfl, rfl⟩, by simp⟩, rfl, rfl, rfl, ⟨id, fun _ => ⟨rfl, rfl, rfl, rfl, rfl, rfl, rfl, rfl⟩, by simp⟩⟩
+  ⟨⟨id, fun _ => ⟨rfl, rfl, rfl, rfl⟩, by simp⟩, rfl, rfl, rfl, rfl, ⟨id, fun _ => ⟨rfl, rfl, rfl, rfl, rfl, rfl, rfl, rfl⟩, by simp⟩⟩
 
 theorem SameOwn.trans {a b c : State} (h1 : SameOwn a b) (h2 : SameOwn b c) : SameOwn a c := by
   obtain ⟨g1, hg1, r1⟩ := h1.roster
@@ -2368,7 +2420,7 @@ theorem SameOwn.trans {a b c : State} (h1 : SameOwn a b) (h2 : SameOwn b c) : Sa
   obtain ⟨f1, hf1, e1⟩ := h1.envs
   obtain ⟨f2, hf2, e2⟩ := h2.envs
   refine ⟨⟨g2 ∘ g1, ?_, by rw [r2, r1, List.map_map]⟩, h2.master.trans h1.master, h2.dead.trans h1.dead,
-    h2.killLog.trans h1.killLog, ⟨f2 ∘ f1, ?_, by rw [e2, e1, List.map_map]⟩⟩
+    h2.killLog.trans h1.killLog, h2.cfg.trans h1.cfg, ⟨f2 ∘ f1, ?_, by rw [e2, e1, List.map_map]⟩⟩
   · intro t
     obtain ⟨a1, a2, a3, a4⟩ := hg1 t
     obtain ⟨b1, b2, b3, b4⟩ := hg2 (g1 t)
@@ -2380,7 +2432,7 @@ theorem SameOwn.trans {a b c : State} (h1 : SameOwn a b) (h2 : SameOwn b c) : Sa
 
 theorem sameOwn_applyTrans (s : State) (E : Env) (ev : CEv) (fails : List (TaskId × Bool)) :
     SameOwn s (applyTrans s E ev fails).1 := by
-  refine ⟨⟨_, ?_, rfl⟩, rfl, rfl, rfl, ⟨id, fun _ => ⟨rfl, rfl, rfl, rfl, rfl, rfl, rfl, rfl⟩, by simp [applyTrans]⟩⟩
+  refine ⟨⟨_, ?_, rfl⟩, rfl, rfl, rfl, rfl, ⟨id, fun _ => ⟨rfl, rfl, rfl, rfl, rfl, rfl, rfl, rfl⟩, by simp [applyTrans]⟩⟩
   intro t
   by_cases ht : isTarget E t
   · simp only [ht, if_true]
@@ -2391,7 +2443,7 @@ theorem sameOwn_applyTrans (s : State) (E : Env) (ev : CEv) (fails : List (TaskI
 
 theorem sameOwn_setEnv_state (s : State) (k : EnvId) (st : EState) :
     SameOwn s (setEnv s k (fun X => { X with state := st })) := by
-  refine ⟨⟨id, fun _ => ⟨rfl, rfl, rfl, rfl⟩, by simp [setEnv]⟩, rfl, rfl, rfl,
+  refine ⟨⟨id, fun _ => ⟨rfl, rfl, rfl, rfl⟩, by simp [setEnv]⟩, rfl, rfl, rfl, rfl,
     ⟨fun E => if E.id = k then { E with state := st } else E, ?_, rfl⟩⟩
   intro E; by_cases hk : E.id = k <;> simp [hk]
 
@@ -2406,7 +2458,7 @@ theorem sameOwn_destroyStop (s : State) (k : EnvId) (E : Env) (allow : Bool) (fa
 /-- The hypotheses of the clean-destroy theorem only look at what `SameOwn` keeps. -/
 theorem hyps_transfer {s s1 : State} (h : SameOwn s s1) (k : EnvId) (tasks : List TaskId) (hooks : List HookRef) :
     envWf s1 k tasks = envWf s k tasks ∧ statusFaithful s1 tasks = statusFaithful s tasks ∧
-    hooksReleasable s1 hooks = hooksReleasable s hooks := by
+    hooksOk s1 hooks = hooksOk s hooks := by
   obtain ⟨g, hg, hr⟩ := h.roster
   refine ⟨?_, ?_, ?_⟩
   · obtain ⟨f, hf, he⟩ := h.envs
@@ -2428,8 +2480,8 @@ theorem hyps_transfer {s s1 : State} (h : SameOwn s s1) (k : EnvId) (tasks : Lis
     congr 1
     funext t
     simp [(hg t).1, (hg t).2.2.2]
-  · simp only [hooksReleasable]
-    congr 1
+  · simp only [hooksOk, hooksReleasable, h.cfg]
+    congr 2
     have : roleActive s1 = roleActive s := by
       funext x; exact roleActive_map s g (fun t => ⟨(hg t).1, (hg t).2.2.2⟩) s1 hr x
     rw [this]
@@ -2450,7 +2502,7 @@ theorem wf_parent (s : State) (k : EnvId) (tasks : List TaskId) (hwf : envWf s k
     hook hypotheses: exactly the environment's tasks released, the master and the kill log
     untouched, the environment out of the listing and its call counters in `dead`. -/
 theorem teardown_done_state (s : State) (k : EnvId) (force late : Bool) (hf : List TaskId) (E : Env)
-    (hE : s.env? k = some E) (hwf : envWf s k E.tasks = true) (hrel : hooksReleasable s E.hooks = true)
+    (hE : s.env? k = some E) (hwf : envWf s k E.tasks = true) (hrel : hooksOk s E.hooks = true)
     (hhk : ∀ h ∈ E.hooks, h.task ∈ E.tasks)
     (hdone : (teardown s k force late hf).2.1 = .ok ∨ (teardown s k force late hf).2.1 = .doneErr) :
     (teardown s k force late hf).1.roster = s.roster.map (relAll E.tasks) ∧
@@ -2501,7 +2553,7 @@ theorem teardown_done_state (s : State) (k : EnvId) (force late : Bool) (hf : Li
     rw [List.map_map]
     apply List.map_congr_left
     intro t ht
-    exact release_all s k E hwf hrel hhk _ rfl t ht
+    exact release_all s k E hwf hrel hhk (releaseTasks s k (tdPlain E)).1 rfl rfl t ht
   · intro X hX
     obtain ⟨hm, hne⟩ := List.mem_filter.mp hX
     rw [henvs] at hm
@@ -2741,7 +2793,7 @@ theorem teardown_notfound (s : State) (k : EnvId) (f l : Bool) (hf : List TaskId
 /-- doTeardownAndCleanup answering success leaves the environment clean, under the hypotheses. -/
 theorem tac_clean (s : State) (k : EnvId) (force keep : Bool) (o : DOracle) (E : Env)
     (hE : s.env? k = some E) (hwf : envWf s k E.tasks = true) (hfaith : statusFaithful s E.tasks = true)
-    (hrel : hooksReleasable s E.hooks = true) (hhk : ∀ h ∈ E.hooks, h.task ∈ E.tasks)
+    (hrel : hooksOk s E.hooks = true) (hhk : ∀ h ∈ E.hooks, h.task ∈ E.tasks)
     (hok : (teardownAndCleanup s k E.tasks force keep o).2.1 = .ok) :
     cleanAfter k keep (viewOf (teardownAndCleanup s k E.tasks force keep o).1) = true := by
   have hwf' : ∀ E', s.env? k = some E' → envWf s k E'.tasks = true ∧ (∀ h ∈ E'.hooks, h.task ∈ E'.tasks) := by
@@ -2798,7 +2850,7 @@ theorem env?_sameOwn {s s1 : State} (h : SameOwn s s1) (k : EnvId) (E : Env) (hE
 /-- The same for every state that differs from `s` in task and environment states only. -/
 theorem tac_clean_same (s s1 : State) (hso : SameOwn s s1) (k : EnvId) (force keep : Bool) (o : DOracle) (E : Env)
     (hE : s.env? k = some E) (hwf : envWf s k E.tasks = true) (hfaith : statusFaithful s E.tasks = true)
-    (hrel : hooksReleasable s E.hooks = true) (hhk : ∀ h ∈ E.hooks, h.task ∈ E.tasks)
+    (hrel : hooksOk s E.hooks = true) (hhk : ∀ h ∈ E.hooks, h.task ∈ E.tasks)
     (hok : (teardownAndCleanup s1 k E.tasks force keep o).2.1 = .ok) :
     cleanAfter k keep (viewOf (teardownAndCleanup s1 k E.tasks force keep o).1) = true := by
   obtain ⟨E1, hE1, _, ht, hh, _⟩ := env?_sameOwn hso k E hE
@@ -2810,7 +2862,7 @@ theorem tac_clean_same (s s1 : State) (hso : SameOwn s s1) (k : EnvId) (force ke
 theorem destroyRest_clean (s s1 : State) (hso : SameOwn s s1) (st : EState) (stopOk : Bool) (k : EnvId) (keep : Bool)
     (o : DOracle) (E : Env)
     (hE : s.env? k = some E) (hwf : envWf s k E.tasks = true) (hfaith : statusFaithful s E.tasks = true)
-    (hrel : hooksReleasable s E.hooks = true) (hhk : ∀ h ∈ E.hooks, h.task ∈ E.tasks) :
+    (hrel : hooksOk s E.hooks = true) (hhk : ∀ h ∈ E.hooks, h.task ∈ E.tasks) :
     (destroyRest s1 st stopOk k E keep o).2.1 = .ok →
     cleanAfter k keep (viewOf (destroyRest s1 st stopOk k E keep o).1) = true ∨
     cleanAfter k false (viewOf (destroyRest s1 st stopOk k E keep o).1) = true := by
@@ -2834,7 +2886,7 @@ theorem cleanAfter_keep_of_kill (k : EnvId) (v : View) (h : cleanAfter k false v
 
 theorem destroy_clean (s : State) (k : EnvId) (force allow keep : Bool) (o : DOracle) (E : Env)
     (hE : s.env? k = some E) (hwf : envWf s k E.tasks = true) (hfaith : statusFaithful s E.tasks = true)
-    (hrel : hooksReleasable s E.hooks = true) (hhk : ∀ h ∈ E.hooks, h.task ∈ E.tasks)
+    (hrel : hooksOk s E.hooks = true) (hhk : ∀ h ∈ E.hooks, h.task ∈ E.tasks)
     (hok : (destroy s k force allow keep o).2.1 = .ok) :
     cleanAfter k keep (viewOf (destroy s k force allow keep o).1) = true := by
   revert hok
@@ -2891,12 +2943,70 @@ theorem teardown_forced_res (s : State) (k : EnvId) (late : Bool) (hf : List Tas
   · right; left; rfl
   · left; rfl
 
+/-- A teardown only hangs in an environment in which an earlier one hung, or by the oracle of the
+    rendezvous race — which has a say in a configuration with the late delete only. -/
+theorem teardown_not_hang (s : State) (k : EnvId) (force late : Bool) (hf : List TaskId)
+    (hte : ∀ E, s.env? k = some E → E.tearing = false) (hl : (late && s.cfg.lateDelete) = false) :
+    (teardown s k force late hf).2.1 ≠ .hang := by
+  unfold teardown
+  split
+  · simp
+  · rename_i E hE
+    have := hte E hE
+    simp only [this, Bool.false_eq_true, if_false]
+    split
+    · simp
+    split
+    · simp
+    split
+    · simp
+    · unfold tdFinish
+      simp only [hl, Bool.false_eq_true, if_false]
+      split
+      · simp
+      · split <;> simp
+
+/-- The listing entry of `k` after its state was set. -/
+theorem env?_setEnv_state (s : State) (k : EnvId) (st : EState) :
+    (setEnv s k (fun X => { X with state := st })).env? k = (s.env? k).map (fun E => { E with state := st }) := by
+  unfold State.env? setEnv
+  simp only [List.find?_map]
+  have hcomp : ((fun E => decide (E.id = k)) ∘ fun E : Env => if E.id = k then { E with state := st } else E) =
+      (fun E : Env => decide (E.id = k)) := by
+    funext X; by_cases hX : X.id = k <;> simp [hX]
+  rw [hcomp]
+  cases hf : s.envs.find? (fun E => decide (E.id = k)) with
+  | none => rfl
+  | some E =>
+    have hk : E.id = k := by simpa using List.find?_some hf
+    simp [hk]
+
+/-- The failure tail of a creation does not hang either, then. -/
+theorem createFail_not_hang (s : State) (k : EnvId) (ids : List TaskId) (late : Bool) (res : Res) (hf : List TaskId)
+    (hte : ∀ E, s.env? k = some E → E.tearing = false) (hl : (late && s.cfg.lateDelete) = false) (hres : res ≠ .hang) :
+    (createFail s k ids late res hf).2 ≠ .hang := by
+  have h1 : (teardown (setEnv s k (fun X => { X with state := .ERROR })) k true late hf).2.1 ≠ .hang := by
+    refine teardown_not_hang (setEnv s k (fun X => { X with state := .ERROR })) k true late hf ?_ hl
+    intro E1 hE1
+    rw [env?_setEnv_state] at hE1
+    cases hs : s.env? k with
+    | none => rw [hs] at hE1; simp at hE1
+    | some E =>
+      rw [hs] at hE1
+      simp only [Option.map_some, Option.some.injEq] at hE1
+      rw [← hE1]
+      exact hte E hs
+  unfold createFail
+  cases hr : (teardown (setEnv s k (fun X => { X with state := .ERROR })) k true late hf).2.1 with
+  | hang => exact absurd hr h1
+  | _ => simpa [hr] using hres
+
 /-- The failure tail of CreateEnvironment (GO_ERROR, forced teardown, KillTasks) leaves the
     environment clean unless it hangs, under the hypotheses of the clean-destroy theorem. -/
 theorem createFail_clean (s : State) (k : EnvId) (late : Bool) (res : Res) (hf : List TaskId) (E : Env)
     (hE : s.env? k = some E) (hte : E.tearing = false) (hwf : envWf s k E.tasks = true)
     (hhk : ∀ h ∈ E.hooks, h.task ∈ E.tasks)
-    (hrel : hooksReleasable s E.hooks = true) (hfaith : statusFaithful s E.tasks = true)
+    (hrel : hooksOk s E.hooks = true) (hfaith : statusFaithful s E.tasks = true)
     (hnh : (createFail s k E.tasks late res hf).2 ≠ .hang) :
     cleanAfter k false (viewOf (createFail s k E.tasks late res hf).1) = true := by
   have hso := sameOwn_setEnv_state s k .ERROR
@@ -2913,7 +3023,7 @@ theorem createFail_clean (s : State) (k : EnvId) (late : Bool) (res : Res) (hf :
     simp [hk]
   have hwf1 : envWf (setEnv s k (fun X => { X with state := .ERROR })) k E.tasks = true := by rw [t1]; exact hwf
   have hfa1 : statusFaithful (setEnv s k (fun X => { X with state := .ERROR })) E.tasks = true := by rw [t2]; exact hfaith
-  have hrel1 : hooksReleasable (setEnv s k (fun X => { X with state := .ERROR })) E.hooks = true := by rw [t3]; exact hrel
+  have hrel1 : hooksOk (setEnv s k (fun X => { X with state := .ERROR })) E.hooks = true := by rw [t3]; exact hrel
   have hres := teardown_forced_res _ k late hf { E with state := .ERROR } hE1 hte (by simp) hwf1 hhk
   revert hnh
   unfold createFail
@@ -3056,7 +3166,7 @@ theorem sameOwn_watchError (s : State) (k : EnvId) (fails : List (TaskId × Bool
     · unfold watchError; rw [hE]; simp only [hte, if_true]; exact SameOwn.refl s
     · rw [watchError_eq s k fails E hE (by simpa using hte)]
       refine SameOwn.trans (b := { s with roster := s.roster.map (watchMap E fails) }) ?_ (sameOwn_setEnv_state _ _ _)
-      refine ⟨⟨watchMap E fails, ?_, rfl⟩, rfl, rfl, rfl, ⟨id, fun _ => ⟨rfl, rfl, rfl, rfl, rfl, rfl, rfl, rfl⟩, by simp⟩⟩
+      refine ⟨⟨watchMap E fails, ?_, rfl⟩, rfl, rfl, rfl, rfl, ⟨id, fun _ => ⟨rfl, rfl, rfl, rfl, rfl, rfl, rfl, rfl⟩, by simp⟩⟩
       intro t
       obtain ⟨a, _, c, d, e, _⟩ := watchMap_props E fails t
       exact ⟨a, c, d, e⟩
@@ -3127,13 +3237,31 @@ theorem lossKeeps_run (steps : List Step) (hl : steps.all Step.isLoss = true) (s
     simp only [List.all_cons, Bool.and_eq_true] at hl
     exact ih hl.2 _ (lossKeeps_step s st hl.1 k tasks hooks hk)
 
+/-- Lost executors / agents and watcher reactions do not change the configuration. -/
+theorem run_loss_cfg (steps : List Step) (hl : steps.all Step.isLoss = true) (s : State) : (run s steps).cfg = s.cfg := by
+  induction steps generalizing s with
+  | nil => rfl
+  | cons st rest ih =>
+    simp only [List.all_cons, Bool.and_eq_true] at hl
+    have h1 : (step s st).1.cfg = s.cfg := by
+      unfold step
+      split
+      · rfl
+      · cases st with
+        | execLost h => rfl
+        | agentLost h => rfl
+        | watchError k' fails => exact (sameOwn_watchError s k' fails).cfg
+        | _ => simp [Step.isLoss] at hl
+    exact (ih hl.2 _).trans h1
+
 /-- A destroy that answers success after any number of lost executors / agents and watcher
-    reactions leaves the environment clean, provided its DESTROY hooks are still releasable. -/
+    reactions leaves the environment clean (in the legacy configuration: provided its DESTROY
+    hooks are still releasable). -/
 theorem destroy_after_loss_clean (s : State) (steps : List Step) (hl : steps.all Step.isLoss = true)
     (k : EnvId) (force allow keep : Bool) (o : DOracle) (E : Env)
     (hE : s.env? k = some E) (hte : E.tearing = false) (hwf : envWf s k E.tasks = true) (hag : hostsAgree s E.tasks = true)
     (hfaith : statusFaithful s E.tasks = true) (hhk : ∀ h ∈ E.hooks, h.task ∈ E.tasks)
-    (hrel : hooksReleasable (run s steps) E.hooks = true)
+    (hrel : hooksOk (run s steps) E.hooks = true)
     (hok : (destroy (run s steps) k force allow keep o).2.1 = .ok) :
     cleanAfter k keep (viewOf (destroy (run s steps) k force allow keep o).1) = true := by
   have hk := lossKeeps_run steps hl s k E.tasks E.hooks ⟨⟨E, hE, rfl, rfl, hte⟩, hwf, hag, hfaith⟩
@@ -3146,7 +3274,7 @@ theorem createFail_after_loss_clean (s : State) (steps : List Step) (hl : steps.
     (k : EnvId) (late : Bool) (res : Res) (hf : List TaskId) (E : Env)
     (hE : s.env? k = some E) (hte : E.tearing = false) (hwf : envWf s k E.tasks = true) (hag : hostsAgree s E.tasks = true)
     (hfaith : statusFaithful s E.tasks = true) (hhk : ∀ h ∈ E.hooks, h.task ∈ E.tasks)
-    (hrel : hooksReleasable (run s steps) E.hooks = true)
+    (hrel : hooksOk (run s steps) E.hooks = true)
     (hnh : (createFail (run s steps) k E.tasks late res hf).2 ≠ .hang) :
     cleanAfter k false (viewOf (createFail (run s steps) k E.tasks late res hf).1) = true := by
   have hk := lossKeeps_run steps hl s k E.tasks E.hooks ⟨⟨E, hE, rfl, rfl, hte⟩, hwf, hag, hfaith⟩
